@@ -82,6 +82,18 @@ fn oracle_paths(max: usize) -> bool {
             }
         }
     }
+    // equality: same filesystem instance and same path string, nothing else (reflexive, symmetric; roots of different instances differ)
+    let other: VfsPath = MemoryFS::new().into();
+    for arg in ["", "a", "a/b", "é", "a/../a", ".."] {
+        r.case();
+        let (x, y, z) = (root.join(arg).unwrap(), root.join(arg).unwrap(), other.join(arg).unwrap());
+        let what = format!("equality of paths joined with {:?}", arg);
+        if x != y || y != x || x != x.clone() { r.fail(what.clone(), "equal paths of one filesystem compare unequal".into()); }
+        if x == z || z == x { r.fail(what.clone(), "paths of two different filesystem instances compare equal".into()); }
+        if x.root() == z.root() || x.root() != root || z.root() != other || x.root() != y.root() { r.fail(what.clone(), "root() of a joined path is not the root of its own filesystem".into()); }
+        if x.parent() == z.parent() || x.parent() != y.parent() { r.fail(what.clone(), "parent() equality crosses filesystem instances".into()); }
+        if (x == root) != x.as_str().is_empty() { r.fail(what.clone(), "comparison with the root disagrees with the path string".into()); }
+    }
     r.done()
 }
 
@@ -389,7 +401,7 @@ fn oracle_overlay(depth: usize) -> bool {
     let mut r = Report::new("overlay");
     #[derive(Clone, Copy, Debug)]
     enum O { Mut(Op), Exists, Meta, ReadDir, Read, Walk, SetTime }
-    let ops = [O::Mut(Op::CreateDir), O::Mut(Op::CreateFile), O::Mut(Op::Append), O::Mut(Op::RemoveFile), O::Mut(Op::RemoveDir), O::Mut(Op::CreateDirAll), O::Mut(Op::RemoveDirAll), O::Exists, O::Meta, O::ReadDir, O::Read, O::Walk, O::SetTime];
+    let ops = [O::Mut(Op::CreateDir), O::Mut(Op::CreateFile), O::Mut(Op::Append), O::Mut(Op::RemoveFile), O::Mut(Op::RemoveDir), O::Mut(Op::CreateDirAll), O::Mut(Op::RemoveDirAll), O::Mut(Op::MoveTo), O::Mut(Op::CopyTo), O::Exists, O::Meta, O::ReadDir, O::Read, O::Walk, O::SetTime];
     let paths = ["/f", "/d", "/d/g", "/n", "/d/n"];
     let steps: Vec<(O, &str)> = ops.iter().flat_map(|o| paths.iter().map(move |p| (*o, *p))).collect();
     let mut seqs: Vec<Vec<(O, &str)>> = vec![vec![]];
@@ -444,8 +456,8 @@ fn oracle_overlay(depth: usize) -> bool {
 fn big_h() -> Vec<u8> { (0..20_000u32).map(|i| (i % 251) as u8).collect() }
 fn oracle_union(depth: usize) -> bool {
     let mut r = Report::new("union.overlay");
-    let universe = ["", "/f", "/d", "/d/g", "/h", "/n", "/d/n", "/e"];
-    let ops = [Op::CreateDir, Op::CreateFile, Op::Append, Op::RemoveFile, Op::RemoveDir, Op::RemoveDirAll, Op::CreateDirAll];
+    let universe = ["", "/f", "/d", "/d/g", "/h", "/n", "/d/n", "/e", "/mv"];
+    let ops = [Op::CreateDir, Op::CreateFile, Op::Append, Op::RemoveFile, Op::RemoveDir, Op::RemoveDirAll, Op::CreateDirAll, Op::MoveTo, Op::CopyTo];
     let steps: Vec<(Op, &str)> = ops.iter().flat_map(|o| universe[1..].iter().map(move |p| (*o, *p))).collect();
     let mut seqs: Vec<Vec<(Op, &str)>> = vec![vec![]];
     for _ in 0..depth { let mut n = vec![]; for s in &seqs { for st in &steps { let mut t = s.clone(); t.push(*st); n.push(t); } } seqs = n; }
@@ -479,6 +491,8 @@ fn oracle_union(depth: usize) -> bool {
                     Op::CreateFile => matches!(probe.get(*p), Some(Node::Dir)),
                     Op::RemoveFile => matches!(probe.get(*p), Some(Node::Dir)),
                     Op::RemoveDir => matches!(probe.get(*p), Some(Node::File(_))) || !children(&probe, p).is_empty(),
+                    // transfers: only file sources (the wrong-type case is unspecified); a move removes through the overlay, same filter as RemoveFile
+                    Op::MoveTo | Op::CopyTo => !matches!(probe.get(*p), Some(Node::File(_))),
                     _ => false,
                 };
                 if skip { continue 'seq; }
@@ -670,19 +684,20 @@ fn oracle_copydir() -> bool {
         vec![("data", None), ("data/data", Some(b"dd")), ("database.bin", Some(&[0xff, 0x00])), ("sub", None), ("sub/deep", None), ("sub/deep/f", Some(b"f")), (".hid", Some(b"h")), ("empty", None)],
     ];
     for tree in &trees {
+      for srcname in ["data", "dätä", "é/data"] {
         for same in [true, false] {
             for mv in [false, true] {
                 for dest_exists in [false, true] {
                     r.case();
                     let a: VfsPath = MemoryFS::new().into();
                     let b: VfsPath = if same { a.clone() } else { MemoryFS::new().into() };
-                    let src = a.join("data").unwrap();
-                    src.create_dir().unwrap();
+                    let src = a.join(srcname).unwrap();
+                    src.create_dir_all().unwrap();
                     for (p, c) in tree { let q = src.join(p).unwrap(); match c { None => q.create_dir().unwrap(), Some(bytes) => { q.create_file().unwrap().write_all(bytes).unwrap(); } } }
                     b.join("keep").unwrap().create_file().unwrap().write_all(b"k").unwrap();
                     let dst = b.join("out").unwrap();
                     if dest_exists { dst.create_dir().unwrap(); }
-                    let what = format!("tree={:?} same_fs={} move={} dest_exists={}", tree.iter().map(|t| t.0).collect::<Vec<_>>(), same, mv, dest_exists);
+                    let what = format!("source={:?} tree={:?} same_fs={} move={} dest_exists={}", srcname, tree.iter().map(|t| t.0).collect::<Vec<_>>(), same, mv, dest_exists);
                     let before = snapshot(&src);
                     let res: Result<Option<u64>, String> = catch_unwind(AssertUnwindSafe(|| if mv { src.move_dir(&dst).map(|_| None) } else { src.copy_dir(&dst).map(Some) })).map_err(|_| "panic".to_string()).and_then(|x| x.map_err(|e| e.to_string()));
                     if dest_exists {
@@ -694,7 +709,7 @@ fn oracle_copydir() -> bool {
                             Ok(count) => {
                                 let rel = |v: &Vec<(String, Option<Vec<u8>>, Option<std::time::SystemTime>, Option<std::time::SystemTime>)>, pre: &str| -> Vec<(String, Option<Vec<u8>>)> { v.iter().map(|(p, c, _, _)| (p[pre.len()..].to_string(), c.clone())).collect() };
                                 let got = rel(&snapshot(&dst), "/out");
-                                let want = rel(&before, "/data");
+                                let want = rel(&before, &format!("/{}", srcname));
                                 if got != want { r.fail(what.clone(), format!("destination tree {:?}, expected {:?}", got.iter().map(|x| &x.0).collect::<Vec<_>>(), want.iter().map(|x| &x.0).collect::<Vec<_>>())); }
                                 if let Some(n) = count { if n != tree.len() as u64 { r.fail(what.clone(), format!("copy_dir returned {}, expected {}", n, tree.len())); } }
                                 if mv { if src.exists().unwrap() { r.fail(what.clone(), "source still exists after move_dir".into()); } }
@@ -703,9 +718,16 @@ fn oracle_copydir() -> bool {
                         }
                     }
                     if b.join("keep").unwrap().read_to_string().unwrap() != "k" { r.fail(what.clone(), "an unrelated file changed".into()); }
+                    // nothing may land outside the destination directory
+                    let mut top: Vec<String> = b.read_dir().unwrap().map(|p| p.filename()).collect(); top.sort();
+                    let mut want_top: Vec<String> = vec!["keep".to_string(), "out".to_string()];
+                    if same { if !(mv && !dest_exists) { want_top.push(srcname.split('/').next().unwrap().to_string()); } else if srcname.contains('/') { want_top.push(srcname.split('/').next().unwrap().to_string()); } }
+                    want_top.sort(); want_top.dedup();
+                    if top != want_top { r.fail(what.clone(), format!("destination filesystem root lists {:?}, expected {:?}", top, want_top)); }
                 }
             }
         }
+      }
     }
     r.done()
 }
